@@ -56,3 +56,508 @@ Proof.
   eexists. split; [reflexivity|]. split; [constructor|]. split; [apply miss_spec_by_compute; reflexivity|].
   split; [vm_compute; reflexivity|]. split; [discriminate | reflexivity].
 Qed.
+
+(* ------------------------------------------------------------------------------------------ *)
+(** * Correctness of one merge step, for every multiplicity *)
+From Coq Require Import Permutation.
+
+Lemma key_eqb_eq a b : key_eqb a b = true <-> a = b.
+Proof.
+  destruct a as [a1 a2], b as [b1 b2]; unfold key_eqb; simpl. rewrite andb_true_iff, !Nat.eqb_eq.
+  split; [intros [-> ->]; reflexivity | intros H; inversion H; auto].
+Qed.
+
+Lemma positions_from_app o k a b :
+  positions_from o k (a ++ b) = positions_from o k a ++ positions_from (o + length a) k b.
+Proof.
+  revert o; induction a as [|x a IH]; intros o; simpl.
+  - rewrite Nat.add_0_r; reflexivity.
+  - rewrite IH. replace (S o + length a) with (o + S (length a)) by lia. destruct (key_eqb x k); reflexivity.
+Qed.
+
+Lemma positions_length o k l : length (positions_from o k l) = count_key k l.
+Proof.
+  revert o; unfold count_key; induction l as [|x l IH]; intros o; simpl; auto.
+  assert (E : key_eqb x k = key_eqb k x).
+  { destruct (key_eqb x k) eqn:E1, (key_eqb k x) eqn:E2; auto.
+    - apply key_eqb_eq in E1; subst. rewrite (proj2 (key_eqb_eq k k) eq_refl) in E2; discriminate.
+    - apply key_eqb_eq in E2; subst. rewrite (proj2 (key_eqb_eq x x) eq_refl) in E1; discriminate. }
+  rewrite <- E. destruct (key_eqb x k); simpl; rewrite IH; reflexivity.
+Qed.
+
+Lemma last_cons {A} (l : list A) : forall a d, last (a :: l) d = last l a.
+Proof. induction l as [|b l IH]; intros a d; [reflexivity|]. change (last (a :: b :: l) d) with (last (b :: l) d). rewrite !IH. reflexivity. Qed.
+
+Section MergeOne.
+  Variable K : Type.
+  Variable kzero : K.
+  Variable kadd : K -> K -> K.
+  Variable kneq : K -> K -> bool.
+  Notation s2 := (s2 K).
+  Notation s2key := (s2key K).
+  Notation pop_loop := (pop_loop K kadd kneq).
+  Notation merge_loop := (merge_loop K kzero kadd kneq).
+
+  Definition is_k (k : key) (c : s2) : bool := key_eqb (s2key c) k.
+
+  (* the phases as the loop visits them (last occurrence first): every `phi_new != phi` test is false *)
+  Fixpoint phases_agree_from (phi : K) (rs : list s2) : bool :=
+    match rs with
+    | [] => true
+    | b :: t => negb (kneq (sphi b) phi) && phases_agree_from (sphi b) t
+    end.
+  Definition phases_agree (rs : list s2) : bool :=
+    match rs with [] => true | a :: t => phases_agree_from (sphi a) t end.
+
+  (* pure list part of the inner loop *)
+  Fixpoint pops (idx : list nat) (B : list s2) : option (list s2 * list s2) :=
+    match idx with
+    | [] => Some ([], B)
+    | i :: idx' =>
+        match pop_at i B with
+        | None => None
+        | Some (c, B') =>
+            match pops idx' B' with None => None | Some (rs, B'') => Some (c :: rs, B'') end
+        end
+    end.
+
+  Lemma pop_at_app (l : list s2) x r : pop_at (length l) (l ++ x :: r) = Some (x, l ++ r).
+  Proof. induction l as [|y l IH]; simpl; auto. rewrite IH. reflexivity. Qed.
+
+  Lemma pops_positions k : forall l1 l2,
+    pops (rev (positions_from 0 k (map s2key l1))) (l1 ++ l2)
+    = Some (rev (filter (is_k k) l1), filter (fun c => negb (is_k k c)) l1 ++ l2).
+  Proof.
+    induction l1 as [|x l IH] using rev_ind; intros l2; simpl; auto.
+    rewrite map_app, positions_from_app, !filter_app. simpl. rewrite map_length.
+    unfold is_k at 2 4. destruct (key_eqb (s2key x) k) eqn:E; simpl.
+    - rewrite rev_app_distr. simpl. rewrite <- app_assoc. simpl. rewrite pop_at_app.
+      rewrite IH. rewrite rev_app_distr. simpl. rewrite app_nil_r. reflexivity.
+    - rewrite app_nil_r. rewrite <- app_assoc. simpl. rewrite IH. rewrite app_nil_r, <- app_assoc. reflexivity.
+  Qed.
+
+  (* accumulation of r and phi over the popped commands, None = CircuitError *)
+  Fixpoint acc (rs : list s2) (first : bool) (r phi : K) : option (K * K) :=
+    match rs with
+    | [] => Some (r, phi)
+    | c :: rs' => if negb first && kneq (sphi c) phi then None else acc rs' false (kadd r (sr c)) (sphi c)
+    end.
+
+  Lemma pop_loop_pops : forall idx first B r phi rs B',
+    pops idx B = Some (rs, B') ->
+    pop_loop idx first B r phi =
+      match acc rs first r phi with Some (r', phi') => Ok (B', r', phi') | None => CircuitErr 3 end.
+  Proof.
+    induction idx as [|i idx IH]; intros first B r phi rs B' H; simpl in *.
+    - inversion H; subst; reflexivity.
+    - destruct (pop_at i B) as [[c B1]|]; [|discriminate].
+      destruct (pops idx B1) as [[rs1 B2]|] eqn:E; [|discriminate]. inversion H; subst. simpl.
+      destruct (negb first && kneq (sphi c) phi); auto.
+  Qed.
+
+  Lemma acc_from : forall rs r phi,
+    acc rs false r phi =
+      if phases_agree_from phi rs then Some (fold_left kadd (map sr rs) r, last (map sphi rs) phi) else None.
+  Proof.
+    induction rs as [|c rs IH]; intros r phi; simpl; auto.
+    destruct (kneq (sphi c) phi); simpl; auto. rewrite IH.
+    destruct (phases_agree_from (sphi c) rs); auto. f_equal. f_equal.
+    symmetry. apply last_cons.
+  Qed.
+
+  Lemma acc_first rs :
+    acc rs true kzero kzero =
+      if phases_agree rs then Some (fold_left kadd (map sr rs) kzero, last (map sphi rs) kzero) else None.
+  Proof.
+    destruct rs as [|c rs]; simpl; auto. rewrite acc_from.
+    destruct (phases_agree_from (sphi c) rs); auto. f_equal. f_equal. symmetry. apply last_cons.
+  Qed.
+
+  (* one iteration of the outer loop, for the key k whose locations were computed on the current list:
+     never an IndexError; CircuitError exactly when two successive phases differ; otherwise all commands
+     of k are removed, every other command is kept in order, and one merged command is inserted *)
+  Theorem merge_one (k : key) (B : list s2) :
+    let bs := filter (is_k k) B in
+    let rest := filter (fun c => negb (is_k k c)) B in
+    let P := positions k (map s2key B) in
+    merge_loop [(k, P)] B =
+      if phases_agree (rev bs)
+      then Ok (insert_at (hd 0 P) (mkS2 (fst k) (snd k) (fold_left kadd (map sr (rev bs)) kzero) (last (map sphi (rev bs)) kzero)) rest)
+      else CircuitErr 3.
+  Proof.
+    intros bs rest P. unfold Model.merge_loop.
+    pose proof (pops_positions k B []) as Hp. rewrite !app_nil_r in Hp.
+    fold (positions k (map s2key B)) in Hp. fold P in Hp.
+    rewrite (pop_loop_pops _ _ _ _ _ _ _ Hp). rewrite acc_first. fold bs.
+    destruct (phases_agree (rev bs)); reflexivity.
+  Qed.
+
+  Lemma insert_at_perm {A} (x : A) : forall i l, Permutation (insert_at i x l) (x :: l).
+  Proof.
+    induction i as [|i IH]; intros l; simpl; auto.
+    destruct l as [|y l]; auto. rewrite IH. apply perm_swap.
+  Qed.
+
+  (* ... so the result is, as a multiset, the merged command plus all the commands of the other pairs *)
+  Corollary merge_one_perm (k : key) (B out : list s2) :
+    merge_loop [(k, positions k (map s2key B))] B = Ok out ->
+    let bs := filter (is_k k) B in
+    phases_agree (rev bs) = true /\
+    Permutation out (mkS2 (fst k) (snd k) (fold_left kadd (map sr (rev bs)) kzero) (last (map sphi (rev bs)) kzero)
+                     :: filter (fun c => negb (is_k k c)) B).
+  Proof.
+    intros H bs. rewrite merge_one in H. fold bs in H.
+    destruct (phases_agree (rev bs)); [|discriminate]. inversion H; subst. split; auto. apply insert_at_perm.
+  Qed.
+End MergeOne.
+
+(* ------------------------------------------------------------------------------------------ *)
+(** * The whole S2gate stage, under the hypothesis that at most one pair carries repeated squeezers *)
+Lemma key_eqb_sym a b : key_eqb a b = key_eqb b a.
+Proof. unfold key_eqb. rewrite (Nat.eqb_sym (fst a)), (Nat.eqb_sym (snd a)). reflexivity. Qed.
+
+Lemma key_eqb_refl a : key_eqb a a = true.
+Proof. apply key_eqb_eq; reflexivity. Qed.
+
+Lemma count_app k l1 l2 : count_key k (l1 ++ l2) = count_key k l1 + count_key k l2.
+Proof. unfold count_key. rewrite filter_app, app_length. reflexivity. Qed.
+
+Lemma count_cons k a l : count_key k (a :: l) = (if key_eqb k a then 1 else 0) + count_key k l.
+Proof. unfold count_key; simpl. destruct (key_eqb k a); reflexivity. Qed.
+
+Lemma count_in k l : In k l <-> 1 <= count_key k l.
+Proof.
+  induction l as [|a l IH]; [simpl; unfold count_key; simpl; split; [tauto | lia]|].
+  rewrite count_cons. simpl. destruct (key_eqb k a) eqn:E.
+  - apply key_eqb_eq in E. subst. split; [lia | auto].
+  - rewrite IH. split; [intros [H|H]; [subst; rewrite key_eqb_refl in E; discriminate | lia] | intros H; right; lia].
+Qed.
+
+Lemma count_nodup l : NoDup l -> forall k, count_key k l <= 1.
+Proof.
+  induction 1 as [|a l Hn Hd IH]; intros k; [unfold count_key; simpl; lia|].
+  rewrite count_cons. destruct (key_eqb k a) eqn:E; [|apply IH].
+  apply key_eqb_eq in E; subst. rewrite count_in in Hn. lia.
+Qed.
+
+Lemma nodup_count l : (forall k, count_key k l <= 1) -> NoDup l.
+Proof.
+  induction l as [|a l IH]; intros H; constructor.
+  - specialize (H a). rewrite count_cons, key_eqb_refl in H. rewrite count_in. lia.
+  - apply IH. intros k. specialize (H k). rewrite count_cons in H. lia.
+Qed.
+
+Lemma count_rev k l : count_key k (rev l) = count_key k l.
+Proof.
+  induction l as [|a l IH]; simpl; auto. rewrite count_app, IH, !count_cons.
+  assert (E : count_key k [] = 0) by reflexivity. rewrite E. lia.
+Qed.
+
+Lemma mem_key_in k l : mem_key k l = true <-> In k l.
+Proof.
+  unfold mem_key. rewrite existsb_exists. split.
+  - intros [x [Hin E]]. apply key_eqb_eq in E. subst; auto.
+  - intros H. exists k; split; auto. apply key_eqb_refl.
+Qed.
+
+Lemma first_occ_spec : forall l seen,
+  NoDup (first_occ seen l) /\ (forall k, In k (first_occ seen l) <-> In k l /\ ~ In k seen).
+Proof.
+  induction l as [|a l IH]; intros seen; simpl.
+  - split; [constructor | intros k; tauto].
+  - destruct (mem_key a seen) eqn:E.
+    + apply mem_key_in in E. destruct (IH seen) as [H1 H2]. split; auto.
+      intros k; rewrite H2. split; [tauto|]. intros [[Heq|H3] H4]; [subst; contradiction | auto].
+    + assert (Hns : ~ In a seen) by (intros Hin; apply mem_key_in in Hin; congruence).
+      destruct (IH (a :: seen)) as [H1 H2]. split.
+      * constructor; auto. rewrite H2. intros [_ Hn]. apply Hn; left; reflexivity.
+      * intros k. simpl. rewrite H2. simpl. split.
+        -- intros [Heq|[H3 H4]]; [subst; auto | split; auto].
+        -- intros [[Heq|H3] H4]; [auto|]. destruct (key_eqb a k) eqn:Ek.
+           ++ apply key_eqb_eq in Ek. auto.
+           ++ right. split; auto. intros [Heq|Hs]; [subst; rewrite key_eqb_refl in Ek; discriminate | contradiction].
+Qed.
+
+Lemma filter_map_comm {A B} (g : A -> B) (f : B -> bool) l : filter f (map g l) = map g (filter (fun a => f (g a)) l).
+Proof. induction l as [|a l IH]; simpl; auto. destruct (f (g a)); simpl; rewrite IH; reflexivity. Qed.
+
+Lemma list_duplicates_eq keys :
+  list_duplicates keys = map (fun k => (k, positions k keys)) (filter (fun k => 1 <? count_key k keys) (first_occ [] keys)).
+Proof.
+  unfold list_duplicates. rewrite filter_map_comm. f_equal. apply filter_ext. intros k. simpl.
+  unfold positions. rewrite positions_length. reflexivity.
+Qed.
+
+Lemma nodup_all_equal {A} (l : list A) : NoDup l -> (forall a b, In a l -> In b l -> a = b) -> l = [] \/ exists a, l = [a].
+Proof.
+  intros Hn He. destruct l as [|a [|b t]]; auto; [right; eexists; reflexivity|].
+  exfalso. assert (a = b) by (apply He; simpl; auto). subst. inversion Hn; subst. simpl in *; tauto.
+Qed.
+
+From Coq Require Import FinFun.
+
+Lemma filter_false {A} (f : A -> bool) l : (forall x, In x l -> f x = false) -> filter f l = [].
+Proof. induction l as [|a l IH]; intros H; simpl; auto. rewrite (H a (or_introl eq_refl)). apply IH. intros x Hx; apply H; right; auto. Qed.
+
+Lemma filter_filter_length {A} (f g : A -> bool) l : length (filter f (filter g l)) <= length (filter f l).
+Proof. induction l as [|a l IH]; simpl; auto. destruct (g a); simpl; destruct (f a); simpl; lia. Qed.
+
+Lemma length_le1_in {A} (l : list A) x : length l <= 1 -> In x l -> l = [x].
+Proof.
+  destruct l as [|a [|b t]]; simpl; intros H Hin.
+  - contradiction.
+  - destruct Hin as [->|[]]; reflexivity.
+  - lia.
+Qed.
+
+Section Full.
+  Variable K : Type.
+  Variable kzero : K.
+  Variable kadd : K -> K -> K.
+  Variable kneq : K -> K -> bool.
+  Variable N : nat.
+  Notation s2 := (s2 K).
+  Notation s2key := (s2key K).
+  Notation is_k := (is_k K).
+  Notation phases_agree := (phases_agree K kneq).
+
+  Definition kz (i : nat) : key := (i, i + N).
+  Definition zs (i : nat) : s2 := mkS2 i (i + N) kzero kzero.
+
+  (* what the command c returned for pair (i, i+N) must be, in terms of the source squeezers of that pair *)
+  Definition spec_for (B : list s2) (i : nat) (c : s2) : Prop :=
+    match filter (is_k (kz i)) B with
+    | [] => c = zs i
+    | [b] => c = b
+    | bs => c = mkS2 i (i + N) (fold_left kadd (map sr (rev bs)) kzero) (last (map sphi (rev bs)) kzero)
+            /\ phases_agree (rev bs) = true
+    end.
+
+  Lemma count_cmd k (B : list s2) : count_key k (map s2key B) = length (filter (is_k k) B).
+  Proof.
+    induction B as [|a B IH]; simpl; auto. rewrite count_cons. unfold Merge.is_k at 1. rewrite key_eqb_sym.
+    destruct (key_eqb (s2key a) k); simpl; rewrite IH; reflexivity.
+  Qed.
+
+  Lemma filter_single (out : list s2) c : NoDup (map s2key out) -> In c out -> filter (is_k (s2key c)) out = [c].
+  Proof.
+    induction out as [|a t IH]; intros Hn Hin; [contradiction|]. simpl in Hn. inversion Hn as [|x l Hna Hnt]; subst.
+    simpl. destruct Hin as [->|Hin].
+    - unfold Merge.is_k at 1. rewrite key_eqb_refl. f_equal. apply filter_false. intros x Hx. unfold Merge.is_k.
+      destruct (key_eqb (s2key x) (s2key c)) eqn:E; auto. apply key_eqb_eq in E. exfalso; apply Hna. rewrite <- E. apply in_map; auto.
+    - assert (E0 : is_k (s2key c) a = false).
+      { unfold Merge.is_k. destruct (key_eqb (s2key a) (s2key c)) eqn:E; auto. apply key_eqb_eq in E. exfalso. apply Hna. rewrite E. apply in_map; auto. }
+      rewrite E0. apply IH; auto.
+  Qed.
+
+  Lemma kz_inj : Injective kz.
+  Proof. intros i j H. inversion H; auto. Qed.
+
+  Definition AK : list key := map kz (seq 0 N).
+  Lemma AK_nodup : NoDup AK.
+  Proof. apply Injective_map_NoDup; [apply kz_inj | apply seq_NoDup]. Qed.
+  Lemma AK_length : length AK = N.
+  Proof. unfold AK. rewrite map_length, seq_length. reflexivity. Qed.
+  Lemma AK_in k : In k AK <-> exists i, i < N /\ k = kz i.
+  Proof.
+    unfold AK. rewrite in_map_iff. split; intros [i [H1 H2]].
+    - exists i. apply in_seq in H2. split; [lia | auto].
+    - exists i. split; auto. apply in_seq. lia.
+  Qed.
+
+  Lemma length_from_nodup (ks : list key) :
+    NoDup ks -> (forall k, In k ks -> exists i, i < N /\ k = kz i) -> (forall i, i < N -> In (kz i) ks) -> length ks = N.
+  Proof.
+    intros Hn H1 H2. rewrite <- AK_length. apply Nat.le_antisymm.
+    - apply NoDup_incl_length; auto. intros k Hk. apply AK_in. auto.
+    - apply NoDup_incl_length; [apply AK_nodup|]. intros k Hk. apply AK_in in Hk as [i [Hi ->]]. auto.
+  Qed.
+
+  Lemma add_missing_eq miss (B : list s2) : add_missing K kzero N miss B = rev (map zs miss) ++ B.
+  Proof.
+    unfold add_missing. revert B. induction miss as [|a miss IH]; intros B; simpl; auto.
+    rewrite IH. rewrite <- app_assoc. reflexivity.
+  Qed.
+
+  Section Hyps.
+    Variable miss : list nat.
+    Variable B : list s2.
+    Hypothesis Hall : forallb (allowed K N) B = true.
+    Hypothesis Hmiss_nd : NoDup miss.
+    Hypothesis Hmiss : forall i, In i miss <-> i < N /\ ~ In (kz i) (map s2key B).
+
+    Let B1 := rev (map zs miss) ++ B.
+    Let keys1 := map s2key B1.
+
+    Lemma allowed_key c : In c B -> exists i, i < N /\ s2key c = kz i.
+    Proof.
+      intros H. rewrite forallb_forall in Hall. specialize (Hall c H). unfold allowed in Hall.
+      apply andb_prop in Hall as [H1 H2]. apply Nat.ltb_lt in H1. apply Nat.eqb_eq in H2.
+      exists (mi c). split; auto. unfold Model.s2key, kz. rewrite H2. reflexivity.
+    Qed.
+
+    Lemma keys_miss : map s2key (rev (map zs miss)) = rev (map kz miss).
+    Proof. rewrite map_rev, map_map. reflexivity. Qed.
+
+    Lemma keys1_eq : keys1 = rev (map kz miss) ++ map s2key B.
+    Proof. unfold keys1, B1. rewrite map_app, keys_miss. reflexivity. Qed.
+
+    Lemma count_miss k : count_key k (rev (map kz miss)) <= 1.
+    Proof. rewrite count_rev. apply count_nodup. apply Injective_map_NoDup; [apply kz_inj | auto]. Qed.
+
+    Lemma incl1 : forall k, In k keys1 -> exists i, i < N /\ k = kz i.
+    Proof.
+      intros k. rewrite keys1_eq, in_app_iff, <- in_rev, !in_map_iff. intros [[i [<- Hi]]|[c [<- Hc]]].
+      - exists i. split; auto. apply Hmiss in Hi. tauto.
+      - apply allowed_key; auto.
+    Qed.
+
+    Lemma incl2 : forall i, i < N -> In (kz i) keys1.
+    Proof.
+      intros i Hi. rewrite keys1_eq, in_app_iff, <- in_rev.
+      destruct (count_key (kz i) (map s2key B)) eqn:E.
+      - left. apply in_map. apply Hmiss. split; auto. rewrite count_in. lia.
+      - right. apply count_in. lia.
+    Qed.
+
+    Lemma dup1_dupB k : 1 < count_key k keys1 ->
+      count_key k (rev (map kz miss)) = 0 /\ 1 < count_key k (map s2key B).
+    Proof.
+      rewrite keys1_eq, count_app. pose proof (count_miss k) as Hm.
+      destruct (count_key k (rev (map kz miss))) eqn:E; [intros; split; lia|].
+      assert (Hin : In k (rev (map kz miss))) by (apply count_in; lia).
+      rewrite <- in_rev, in_map_iff in Hin. destruct Hin as [i [<- Hi]].
+      apply Hmiss in Hi as [_ Hni]. rewrite count_in in Hni. lia.
+    Qed.
+
+    Lemma spec_from_B1 i c : filter (is_k (kz i)) B1 = [c] -> spec_for B i c.
+    Proof.
+      unfold B1. rewrite filter_app.
+      assert (Hmp : forall x, In x (filter (is_k (kz i)) (rev (map zs miss))) -> x = zs i).
+      { intros x Hx. apply filter_In in Hx as [Hx1 Hx2]. rewrite <- in_rev, in_map_iff in Hx1.
+        destruct Hx1 as [j [<- _]]. unfold Merge.is_k in Hx2. apply key_eqb_eq in Hx2.
+        change (s2key (zs j)) with (kz j) in Hx2. apply kz_inj in Hx2. subst; reflexivity. }
+      set (mp := filter (is_k (kz i)) (rev (map zs miss))) in *.
+      unfold spec_for. destruct (filter (is_k (kz i)) B) as [|b [|b2 t]].
+      - rewrite app_nil_r. intros H. apply Hmp. rewrite H. left; reflexivity.
+      - intros H. destruct mp as [|m [|m2 mp']]; simpl in H; inversion H; reflexivity.
+      - intros H. apply (f_equal (@length _)) in H. rewrite app_length in H. simpl in H. lia.
+    Qed.
+
+    Lemma cmd_of_key (l : list s2) k : In k (map s2key l) -> exists x, In x l /\ s2key x = k.
+    Proof. rewrite in_map_iff. intros [x [H1 H2]]; eauto. Qed.
+
+    Lemma key_fields (x : s2) i : s2key x = kz i -> mi x = i /\ mj x = i + N.
+    Proof. unfold Model.s2key, kz. intros H; inversion H; auto. Qed.
+
+    (* the result is B1 itself and its keys are duplicate-free *)
+    Lemma ok_case : NoDup keys1 ->
+      length B1 = N /\ forall i, i < N -> exists c, filter (is_k (kz i)) B1 = [c] /\ mi c = i /\ mj c = i + N /\ spec_for B i c.
+    Proof.
+      intros Hnd. split.
+      - rewrite <- (map_length s2key). apply length_from_nodup; auto; [apply incl1 | apply incl2].
+      - intros i Hi. destruct (cmd_of_key B1 (kz i) (incl2 i Hi)) as [x [Hx Hk]].
+        exists x. pose proof (filter_single B1 x Hnd Hx) as Hf. rewrite Hk in Hf.
+        destruct (key_fields x i Hk). repeat split; auto. apply spec_from_B1; auto.
+    Qed.
+
+    Theorem s2_stage_correct :
+      (forall k1 k2, 1 < count_key k1 (map s2key B) -> 1 < count_key k2 (map s2key B) -> k1 = k2) ->
+      match s2_stage K kzero kadd kneq N miss B with
+      | IndexErr => False
+      | CircuitErr c =>
+          c = 3 /\ exists k, 1 < count_key k (map s2key B) /\ phases_agree (rev (filter (is_k k) B)) = false
+      | Ok out =>
+          length out = N /\
+          forall i, i < N -> exists c, filter (is_k (kz i)) out = [c] /\ mi c = i /\ mj c = i + N /\ spec_for B i c
+      end.
+    Proof.
+      intros Hone. unfold s2_stage. rewrite Hall. simpl negb. cbv iota. rewrite add_missing_eq.
+      fold B1. fold keys1.
+      destruct (N <? length keys1) eqn:Elen.
+      2:{ apply Nat.ltb_ge in Elen. apply ok_case.
+          apply (NoDup_incl_NoDup AK_nodup); [rewrite AK_length; auto|].
+          intros k Hk. apply AK_in in Hk as [i [Hi ->]]. apply incl2; auto. }
+      apply Nat.ltb_lt in Elen. rewrite list_duplicates_eq.
+      destruct (first_occ_spec keys1 []) as [Hfo1 Hfo2].
+      set (D := filter (fun k => 1 <? count_key k keys1) (first_occ [] keys1)).
+      assert (HinD : forall k, In k D <-> 1 < count_key k keys1).
+      { intros k. unfold D. rewrite filter_In, Nat.ltb_lt, Hfo2. split; [tauto|]. intros H. split; auto. split; [apply count_in; lia | tauto]. }
+      assert (HD : D = [] \/ exists k0, D = [k0]).
+      { apply nodup_all_equal; [apply NoDup_filter; auto|]. intros a b Ha Hb. apply HinD in Ha, Hb.
+        apply Hone; apply dup1_dupB; auto. }
+      destruct HD as [HD | [k0 HD]]; rewrite HD; simpl map.
+      - exfalso. assert (Hnd : NoDup keys1).
+        { apply nodup_count. intros k. destruct (le_lt_dec (count_key k keys1) 1); auto.
+          exfalso. apply HinD in l. rewrite HD in l. contradiction. }
+        pose proof (length_from_nodup keys1 Hnd incl1 incl2). lia.
+      - assert (Hk0c : 1 < count_key k0 keys1) by (apply HinD; rewrite HD; left; reflexivity).
+        assert (Hle1 : forall k, k <> k0 -> count_key k keys1 <= 1).
+        { intros k Hne. destruct (le_lt_dec (count_key k keys1) 1); auto. apply HinD in l. rewrite HD in l.
+          destruct l as [->|[]]. congruence. }
+        destruct (dup1_dupB k0 Hk0c) as [Hm0 HcB].
+        unfold keys1. rewrite (merge_one K kzero kadd kneq k0 B1).
+        assert (Ebs : filter (is_k k0) B1 = filter (is_k k0) B).
+        { unfold B1. rewrite filter_app. replace (filter (is_k k0) (rev (map zs miss))) with (@nil s2); auto.
+          symmetry. apply length_zero_iff_nil. rewrite <- count_cmd, keys_miss. exact Hm0. }
+        rewrite Ebs. destruct (phases_agree (rev (filter (is_k k0) B))) eqn:Eph.
+        2:{ split; auto. exists k0; auto. }
+        set (merged := mkS2 (fst k0) (snd k0) (fold_left kadd (map sr (rev (filter (is_k k0) B))) kzero)
+                         (last (map sphi (rev (filter (is_k k0) B))) kzero)).
+        set (rest := filter (fun c => negb (is_k k0 c)) B1).
+        set (out := insert_at (hd 0 (positions k0 (map s2key B1))) merged rest).
+        assert (Hperm : Permutation out (merged :: rest)) by apply insert_at_perm.
+        assert (Hk0in : In k0 keys1) by (apply count_in; lia).
+        destruct (incl1 k0 Hk0in) as [i0 [Hi0 Ek0]].
+        assert (Hkm : s2key merged = k0) by (unfold merged, Model.s2key; simpl; destruct k0; reflexivity).
+        assert (Hrest_in : forall x, In x rest <-> In x B1 /\ s2key x <> k0).
+        { intros x. unfold rest. rewrite filter_In. unfold Merge.is_k. split; intros [H1 H2]; split; auto.
+          - intros E. apply key_eqb_eq in E. rewrite E in H2. discriminate.
+          - destruct (key_eqb (s2key x) k0) eqn:E; auto. apply key_eqb_eq in E. contradiction. }
+        assert (Hnd_rest : NoDup (map s2key rest)).
+        { apply nodup_count. intros k. rewrite count_cmd. destruct (key_eqb k k0) eqn:E.
+          - apply key_eqb_eq in E; subst k. rewrite filter_false; [simpl; lia|].
+            intros x Hx. apply Hrest_in in Hx as [_ Hx]. unfold Merge.is_k. destruct (key_eqb (s2key x) k0) eqn:E2; auto.
+            apply key_eqb_eq in E2. contradiction.
+          - unfold rest. etransitivity; [apply filter_filter_length|]. rewrite <- count_cmd. apply Hle1.
+            intros ->. rewrite key_eqb_refl in E. discriminate. }
+        assert (Hnd_out : NoDup (map s2key out)).
+        { apply (Permutation_NoDup (l := k0 :: map s2key rest)).
+          - symmetry. rewrite <- Hkm. change (s2key merged :: map s2key rest) with (map s2key (merged :: rest)).
+            apply Permutation_map; auto.
+          - constructor; auto. intros Hin. apply cmd_of_key in Hin as [x [Hx Hk]]. apply Hrest_in in Hx. tauto. }
+        assert (Hin_out : forall x, In x out <-> x = merged \/ In x rest).
+        { intros x. split; intros H.
+          - apply (Permutation_in _ Hperm) in H. destruct H; auto.
+          - apply (Permutation_in _ (Permutation_sym Hperm)). destruct H; [left; auto | right; auto]. }
+        split.
+        + rewrite <- (map_length s2key). apply length_from_nodup; auto.
+          * intros k Hk. apply cmd_of_key in Hk as [x [Hx Hk]]. apply Hin_out in Hx as [->|Hx].
+            -- rewrite Hkm in Hk. subst k. eauto.
+            -- apply incl1. subst k. apply in_map. apply Hrest_in in Hx. tauto.
+          * intros i Hi. destruct (key_eqb (kz i) k0) eqn:E.
+            -- apply key_eqb_eq in E. rewrite E, <- Hkm. apply in_map. apply Hin_out; auto.
+            -- destruct (cmd_of_key B1 (kz i) (incl2 i Hi)) as [x [Hx Hk]]. rewrite <- Hk. apply in_map.
+               apply Hin_out. right. apply Hrest_in. split; auto. rewrite Hk. intros E2. rewrite E2, key_eqb_refl in E. discriminate.
+        + intros i Hi. destruct (key_eqb (kz i) k0) eqn:E.
+          * apply key_eqb_eq in E. exists merged.
+            pose proof (filter_single out merged Hnd_out (proj2 (Hin_out merged) (or_introl eq_refl))) as Hf.
+            rewrite Hkm, <- E in Hf. split; auto.
+            assert (Hf1 : fst k0 = i) by (rewrite <- E; reflexivity).
+            assert (Hf2 : snd k0 = i + N) by (rewrite <- E; reflexivity).
+            split; [exact Hf1|]. split; [exact Hf2|].
+            unfold spec_for. rewrite E.
+            assert (Hlen : 1 < length (filter (is_k k0) B)) by (rewrite <- count_cmd; auto).
+            destruct (filter (is_k k0) B) as [|b1 [|b2 t]] eqn:Ef; simpl in Hlen; try lia.
+            split; auto. unfold merged. rewrite Hf1, Hf2. reflexivity.
+          * destruct (cmd_of_key B1 (kz i) (incl2 i Hi)) as [x [Hx Hk]].
+            assert (Hne : kz i <> k0) by (intros E2; rewrite E2, key_eqb_refl in E; discriminate).
+            assert (Hxr : In x rest) by (apply Hrest_in; split; auto; rewrite Hk; auto).
+            exists x. pose proof (filter_single out x Hnd_out (proj2 (Hin_out x) (or_intror Hxr))) as Hf.
+            rewrite Hk in Hf. destruct (key_fields x i Hk). repeat split; auto.
+            apply spec_from_B1. apply length_le1_in.
+            -- rewrite <- count_cmd. apply Hle1; auto.
+            -- apply filter_In. split; auto. unfold Merge.is_k. rewrite Hk. apply key_eqb_refl.
+    Qed.
+  End Hyps.
+End Full.
